@@ -2,7 +2,7 @@
 (* S->C export for C06: for every per-axis (old chunk, new chunk, factor)   *)
 (* TLC enumerates the outcome of every old size 1..MaxSize (one letter per  *)
 (* size: C Correct, E Error, S SilentWrong) and whether the scale generator *)
-(* (ScaleGen.tla transcription, conforming switch positions)   can emit the *)
+(* (ScaleGen.tla transcription, conforming switch positions) can emit the   *)
 (* chunk pair with that factor ratio on some axis of some level, over       *)
 (* resolution triples up to 40:1 (and fractional) and targets 2..256.       *)
 (* The harness turns every distinct class (o, n, f, outcome, size) into     *)
